@@ -635,7 +635,7 @@ func TestVerif_C41(t *testing.T) {
 	defer rec.Write(t)
 	base, cleanup := vh.ScratchDir(t, "c41-")
 	defer cleanup()
-	vh.Check(t, "handles", 70, 250, func(rt *rapid.T) { c41Case(rt, rec, base, false) })
+	vh.Check(t, "handles", 70, 180, func(rt *rapid.T) { c41Case(rt, rec, base, false) })
 }
 
 // TestVerif_C41_proc is the multi-process variant (thorough tier): the same schedules and
@@ -647,5 +647,5 @@ func TestVerif_C41_proc(t *testing.T) {
 	defer rec.Write(t)
 	base, cleanup := vh.ScratchDir(t, "c41p-")
 	defer cleanup()
-	vh.Check(t, "processes", 6, 12, func(rt *rapid.T) { c41Case(rt, rec, base, true) })
+	vh.Check(t, "processes", 6, 8, func(rt *rapid.T) { c41Case(rt, rec, base, true) })
 }
